@@ -8,6 +8,7 @@ import (
 
 	"sheensverif/internal/prog"
 	"sheensverif/internal/pta"
+	"sheensverif/internal/ssau"
 )
 
 func main() {
@@ -30,7 +31,7 @@ func main() {
 	a.Run()
 	fn := p.Func(os.Args[1], os.Args[2], os.Args[3])
 	if len(os.Args) > 4 {
-		for _, an := range fn.AnonFuncs {
+		for _, an := range ssau.WithAnon(fn) {
 			if an.Name() == os.Args[4] {
 				fn = an
 			}
